@@ -723,7 +723,7 @@ var twoMapsLeaf = map[string]bool{"CanceledProducers[-]": true, "Nicknames[+]": 
 var specialLeaf = map[string]bool{"ActivityProducers[+]": true, "IllegalProducers[-]": true, "ActivityProducers[-]": true, "IllegalProducers[+]": true,
 	"InactiveProducers[+]": true, "InactiveProducers[-]": true, "EmergencyInactiveArbiters[+]": true, "EmergencyInactiveArbiters[-]": true,
 	"Producer.inactiveSince": true, "Producer.state": true, "Producer.penalty": true, "Producer.illegalHeight": true,
-	"Producer.lastUpdateInactiveHeight": true}
+	"Producer.lastUpdateInactiveHeight": true, "CanceledProducers[+]": true, "CanceledProducers[-]": true}
 
 func recorded(n string) bool {
 	return recordedLeaf[n] || (lastEmergTwice && emergLeaf[n]) || (lastTwoMaps && twoMapsLeaf[n]) || (lastSpecial && specialLeaf[n])
